@@ -120,6 +120,20 @@ static void sink_case(int shape, const Values &v, const S &fmt)
             vrt::violation(sfmt("C17:writef<char>:threw:%s", vrt::demangle(typeid(e).name()).c_str()), ctx + " " + e.what());
         }
     }
+    // the _stfmt literal formatter
+    {
+        vrt::evals();
+        try {
+            S got;
+            call_shape(shape, v, f.data(), nullptr, [&](const char *fs, auto &&...a) {
+                ST::string r = ST::literals::operator""_stfmt(fs, strlen(fs))(a...);
+                got.assign(r.c_str(), r.size());
+            });
+            if (got != want) vrt::violation("C17:_stfmt:differs-from-format", sfmt("%s got=%s want=%s", ctx.c_str(), show(got).c_str(), show(want).c_str()));
+        } catch (const std::exception &e) {
+            vrt::violation(sfmt("C17:_stfmt:threw:%s", vrt::demangle(typeid(e).name()).c_str()), ctx + " " + e.what());
+        }
+    }
     // Latin-1 reading of the same bytes
     {
         vrt::evals();
